@@ -520,6 +520,7 @@ type OpResult struct {
 	Unknown  string   `json:"unknown"`
 	Out      string   `json:"out"`
 	Attached string   `json:"attached"`
+	Set      string   `json:"set"`
 	Items    string   `json:"items,omitempty"`
 	Bytes    string   `json:"bytes,omitempty"`
 	Model    string   `json:"model,omitempty"`
@@ -569,6 +570,40 @@ func (r *runner) observeVals() (string, string) {
 	}
 	sort.Strings(att)
 	return strings.Join(parts, ";"), strings.Join(att, ",")
+}
+
+// observeSet renders Option.IsSet / IsSetDefault of every option of the tree (the built-in help
+// option excepted), identified by field name, long name and short name; sorted.
+func observeSet(p *flags.Parser) string {
+	var parts []string
+	bit := func(b bool) string {
+		if b {
+			return "1"
+		}
+		return "0"
+	}
+	var walkG func(g *flags.Group)
+	walkG = func(g *flags.Group) {
+		for _, o := range g.Options() {
+			if o.Field().Name == "ShowHelp" {
+				continue
+			}
+			parts = append(parts, fmt.Sprintf("%s|%s|%d:%s%s", hexs(o.Field().Name), hexs(o.LongName), o.ShortName, bit(o.IsSet()), bit(o.IsSetDefault())))
+		}
+		for _, sg := range g.Groups() {
+			walkG(sg)
+		}
+	}
+	var walkC func(c *flags.Command)
+	walkC = func(c *flags.Command) {
+		walkG(c.Group)
+		for _, sc := range c.Commands() {
+			walkC(sc)
+		}
+	}
+	walkC(p.Command)
+	sort.Strings(parts)
+	return strings.Join(parts, ";")
 }
 
 func activeChain(p *flags.Parser) string {
@@ -870,6 +905,7 @@ func runScenario(sc *Scenario) (res *ScenarioResult) {
 			so, se = capture(func() { r.runOp(p, op, &or) })
 		}()
 		or.Vals, or.Attached = r.observeVals()
+		or.Set = observeSet(p)
 		or.Active = activeChain(p)
 		or.Calls = strings.Join(r.callLog, ";")
 		or.Exec = strings.Join(r.execLog, ";")
